@@ -17,12 +17,49 @@ SENTINEL_CLASSES = ("NotSet", "StateNotSet", "StateSet", "StateCleared", "object
 TYPE_NAMES = {"int", "float", "bool", "str", "list", "dict", "tuple", "set", "bytes", "type", "object"}
 
 
-def head_spec(ctx: Ctx, rel, suffix):
-    site = ctx.site(rel, suffix)
+def head_spec(ctx: Ctx, rel, suffix, states=None):
+    if states is None and rel == "rxsci/data/roll.py":
+        states = 1 if "_roll_count" in suffix else 2
+    site = ctx.site(rel, suffix, kind="mux", states=states)
     specs = site.handler_specs("on_next")
     if len(specs) != 1:
         raise AnalysisError("%s: expected one on_next handler" % site.name)
     return site, specs[0]
+
+
+def roll_state_names(ctx, site):
+    """(counter state, slot state) of the sliding roll, by declared type: 'uint' counter, int slots."""
+    n = w = None
+    for name, t in ctx.probe_states(site):
+        dt = dict(t.kwargs).get("data_type")
+        if dt == ("const", "uint"):
+            n = name
+        elif dt == ("builtin", "int"):
+            w = name
+    if n is None or w is None:
+        raise AnalysisError("%s: the 'uint' item counter and the int slot state were not both found" % site.name)
+    return n, w
+
+
+def time_split_state_names(ctx, site, spec):
+    """(window reference state, last timestamp state): the reference is the one whose reads are tested against NOTSET."""
+    names = [n for n, _ in ctx.probe_states(site)]
+    if len(names) != 2:
+        raise AnalysisError("%s: expected two state ids (window reference, last timestamp), found %s" % (site.name, names))
+    start = None
+    for kind, cfg, paths in ctx.all_paths(spec, kinds=("Next",)):
+        for p in paths:
+            reads = {e.result: e.state[1] for e in p.trace if e.k == "store" and e.op == "get_state"}
+            for e in p.trace:
+                if e.k == "decision" and e.test[0] == "cmp" and e.test[1] in ("Is", "IsNot"):
+                    for x, y in ((e.test[2], e.test[3]), (e.test[3], e.test[2])):
+                        if x in reads and _is_notset(y):
+                            start = reads[x]
+        if start:
+            break
+    if start is None:
+        raise AnalysisError("%s: no state is tested against STATE_NOTSET while handling an item" % site.name)
+    return start, [n for n in names if n != start][0]
 
 
 def _normal(p):
@@ -200,7 +237,7 @@ def rule_dp4(ctx: Ctx) -> RuleResult:
     r = RuleResult("DP-4", "split: after an item, the stored predicate equals the predicate of that item; roll-over is Completed < Create < Next")
     site, spec = head_spec(ctx, *FW_HEADS["split"])
     r.instances += 1
-    state = "state"
+    state = ctx.only_state(site)
     for kind, cfg, paths in ctx.all_paths(spec, kinds=("Next",)):
         for p in paths:
             r.paths += 1
@@ -268,6 +305,7 @@ def rule_time_split(ctx: Ctx):
     r2 = RuleResult("DP-5", "time_split: every item updates the last timestamp; opening, expiry and closing also set the window reference")
     r3 = RuleResult("ORD-1", "time_split: placement of the closing item per include_closing_item; closing_mapper consulted only when not expired")
     site, spec = head_spec(ctx, *FW_HEADS["time_split"])
+    S_START, S_LAST = time_split_state_names(ctx, site, spec)
     for r in (r1, r2, r3):
         r.instances += 1
     seen_active = seen_inactive = False
@@ -283,8 +321,8 @@ def rule_time_split(ctx: Ctx):
                 r2.ob(False, lambda: mk_finding("DP-5", spec, kind, cfg, p, "time_mapper must be applied exactly once to the item", extra="time_mapper"))
                 continue
             new = tm[0].result
-            start_reads = [e.result for e in p.trace if e.k == "store" and e.op == "get_state" and e.state[1] == "state_start"]
-            last_reads = [e.result for e in p.trace if e.k == "store" and e.op == "get_state" and e.state[1] == "state_last"]
+            start_reads = [e.result for e in p.trace if e.k == "store" and e.op == "get_state" and e.state[1] == S_START]
+            last_reads = [e.result for e in p.trace if e.k == "store" and e.op == "get_state" and e.state[1] == S_LAST]
             first = any(e.k == "decision" and e.test[0] == "cmp" and e.test[1] in ("Is", "IsNot")
                         and any(sr in (e.test[2], e.test[3]) for sr in start_reads)
                         and (e.outcome == (e.test[1] == "Is")) for e in p.trace)
@@ -329,8 +367,8 @@ def rule_time_split(ctx: Ctx):
                     "CMP-1", spec, kind, cfg, p, "the %s test '%s' is not 'new timestamp >= reference + %s': %s" % (
                         which.split("_")[0], show(d.test), which, why), node=d.node, extra=which))
             # ---- DP-5 --------------------------------------------------
-            w_last = [e for e in p.trace if e.k == "store" and e.op == "set_state" and e.state[1] == "state_last"]
-            w_start = [e for e in p.trace if e.k == "store" and e.op == "set_state" and e.state[1] == "state_start"]
+            w_last = [e for e in p.trace if e.k == "store" and e.op == "set_state" and e.state[1] == S_LAST]
+            w_start = [e for e in p.trace if e.k == "store" and e.op == "set_state" and e.state[1] == S_START]
             r2.ob(bool(w_last) and w_last[-1].extra[0] == new and _index_of_key(w_last[-1].key) == KEYIDX, lambda: mk_finding(
                 "DP-5", spec, kind, cfg, p, "the timestamp of the item is not recorded as the key's last timestamp: the inactive timeout "
                 "of the next item is measured from a stale value", extra="last"))
@@ -437,6 +475,7 @@ def rule_roll(ctx: Ctx):
     r2 = RuleResult("DP-2", "roll: a window opens iff counter % stride == 0 and stores the counter; it closes iff counter - start + 1 == window")
     r3 = RuleResult("DP-3", "roll: partial windows are flushed starting from the oldest slot (order depends on the ring phase)")
     site, spec = head_spec(ctx, "rxsci/data/roll.py", "roll_mux._roll.subscribe")
+    S_N, S_W = roll_state_names(ctx, site)
     for r in (r1, r2, r3):
         r.instances += 1
     for kind, cfg, paths in ctx.all_paths(spec, kinds=("Next",)):
@@ -447,8 +486,8 @@ def rule_roll(ctx: Ctx):
             r2.paths += 1
             r1.groups.add((spec.qualname, kind))
             r2.groups.add((spec.qualname, kind))
-            n_reads = [e for e in p.trace if e.k == "store" and e.op == "get_state" and e.state[1] == "state_n"]
-            n_writes = [e for e in p.trace if e.k == "store" and e.op == "set_state" and e.state[1] == "state_n"]
+            n_reads = [e for e in p.trace if e.k == "store" and e.op == "get_state" and e.state[1] == S_N]
+            n_writes = [e for e in p.trace if e.k == "store" and e.op == "set_state" and e.state[1] == S_N]
             ok = len(n_writes) == 1 and _index_of_key(n_writes[0].key) == KEYIDX
             if ok:
                 v = n_writes[0].extra[0]
@@ -480,7 +519,7 @@ def rule_roll(ctx: Ctx):
                 c = creates[0]
                 idx = c.event.keyclass[1]
                 li = linear_index(idx)
-                wr = [e for e in p.trace if e.k == "store" and e.op == "set_state" and e.state[1] == "state_w" and _index_of_key(e.key) == idx]
+                wr = [e for e in p.trace if e.k == "store" and e.op == "set_state" and e.state[1] == S_W and _index_of_key(e.key) == idx]
                 r2.ob(bool(wr) and wr[0].extra[0] == n, lambda: mk_finding(
                     "DP-2", spec, kind, cfg, p, "the slot of the new window must record the counter value at opening (start index); it records %s" % (
                         show(wr[0].extra[0]) if wr else "nothing"), node=c.eff.node, extra="open-store"))
@@ -493,11 +532,12 @@ def rule_roll(ctx: Ctx):
             for e in p.trace:
                 if e.k != "decision":
                     continue
-                if not any(x[0] == "param" and x[1] == "window" for x in subterms(e.test)):
-                    continue
-                wreads = [x for x in subterms(e.test) if x[0] == "store" and x[1] == "get_state" and x[2][1] == "state_w"]
                 nf = normalise_cmp(e.test, True)
-                window = [x for x in subterms(e.test) if x[0] == "param" and x[1] == "window"][0]
+                # a closing test is a comparison in which the window length itself is an operand
+                if nf is None or not any(k[0] == "param" and k[1] == "window" for k, _ in nf[1]):
+                    continue
+                wreads = [x for x in subterms(e.test) if x[0] == "store" and x[1] == "get_state" and x[2][1] == S_W]
+                window = [k for k, _ in nf[1] if k[0] == "param" and k[1] == "window"][0]
                 ok = False
                 why = "not a comparison of counter, start index and window"
                 if nf is not None and wreads:
@@ -524,12 +564,21 @@ def rule_roll(ctx: Ctx):
                     r2.ob(bool(closed_here) == bool(e.outcome), lambda e=e: mk_finding(
                         "DP-2", spec, kind, cfg, p, "the closing test is %s but the window is %s" % (e.outcome, "completed" if closed_here else "not completed"),
                         node=e.node, extra="close-effect"))
+    for kind, cfg, paths in ctx.all_paths(spec, kinds=("Next",)):
+        for p in paths:
+            if not _normal(p):
+                continue
+            closes = [m for m in mux_emissions(p, roles=("down",)) if m.event is not None and m.event.kind == "Completed"]
+            tests = [e for e in p.trace if e.k == "decision" and normalise_cmp(e.test, True) is not None
+                     and any(k[0] == "param" and k[1] == "window" for k, _ in normalise_cmp(e.test, True)[1])]
+            r2.ob(not closes or bool(tests), lambda: mk_finding(
+                "DP-2", spec, kind, cfg, p, "a window is completed while an item is handled but no comparison with the window length decides it", extra="close-unexplained"))
     for kind, cfg, paths in ctx.all_paths(spec, kinds=("Completed", "Error", "Create")):
         for p in paths:
             r1.paths += 1
             if any(e.k == "loopexit" and e.n == 0 for e in p.trace):
                 continue
-            resets = [e for e in p.trace if e.k == "store" and e.state[1] == "state_n" and (
+            resets = [e for e in p.trace if e.k == "store" and e.state[1] == S_N and (
                 e.op in ("add_key", "del_key") or (e.op == "set_state" and e.extra[0] == ("const", 0))) and _index_of_key(e.key) == KEYIDX]
             r1.ob(bool(resets), lambda: mk_finding("DP-1", spec, kind, cfg, p,
                                                    "the item counter of the key is not reset when the parent key is %s" % kind.lower(), extra="reset"))
@@ -541,7 +590,7 @@ def rule_roll(ctx: Ctx):
             flushed = [m for m in mux_emissions(p, roles=("down",)) if m.event is not None and m.event.keyclass[0] == "CHILD"]
             for m in flushed:
                 idx = m.event.keyclass[1]
-                shape = _flush_start_shape(idx)
+                shape = _flush_start_shape(idx, S_N)
                 if shape is not None:
                     kind_, detail = shape
                     if kind_ == "unknown":
@@ -553,7 +602,7 @@ def rule_roll(ctx: Ctx):
                         "oldest one); the flush starts at %s, which is the newest window's slot whenever the counter is not a multiple of stride" % detail,
                         node=m.eff.node, extra="flush-start"))
                     continue
-                dep_n = any(x[0] == "store" and x[1] == "get_state" and x[2][1] == "state_n" for x in subterms(idx))
+                dep_n = any(x[0] == "store" and x[1] == "get_state" and x[2][1] == S_N for x in subterms(idx))
                 # ... or the order derives from an ordering of the stored start indices
                 dep_sorted = any(e.k == "loopiter" and e.iter is not None and any(
                     x[0] == "call" and x[1] == ("builtin", "sorted") for x in subterms(e.iter)) for e in p.trace)
@@ -564,6 +613,7 @@ def rule_roll(ctx: Ctx):
                     node=m.eff.node, extra="flush-order"))
     # ---- tumbling variant ----------------------------------------------
     site2, spec2 = head_spec(ctx, "rxsci/data/roll.py", "roll_mux._roll_count.subscribe")
+    S_C = ctx.only_state(site2)
     r2.instances += 1
     r1.instances += 1
     for kind, cfg, paths in ctx.all_paths(spec2, kinds=("Next",)):
@@ -572,8 +622,8 @@ def rule_roll(ctx: Ctx):
                 continue
             r2.paths += 1
             r2.groups.add((spec2.qualname, kind))
-            reads = [e for e in p.trace if e.k == "store" and e.op == "get_state" and e.state[1] == "state"]
-            writes = [e for e in p.trace if e.k == "store" and e.op == "set_state" and e.state[1] == "state"]
+            reads = [e for e in p.trace if e.k == "store" and e.op == "get_state" and e.state[1] == S_C]
+            writes = [e for e in p.trace if e.k == "store" and e.op == "set_state" and e.state[1] == S_C]
             if not reads:
                 r2.ob(False, lambda: mk_finding("DP-2", spec2, kind, cfg, p, "the in-window counter is not read", extra="count-read"))
                 continue
@@ -599,9 +649,10 @@ def rule_roll(ctx: Ctx):
             window = None
             cd = []
             for e in p.trace:
-                if e.k == "decision" and any(x[0] == "param" and x[1] == "window" for x in subterms(e.test)):
+                nfw = normalise_cmp(e.test, True) if e.k == "decision" else None
+                if nfw is not None and any(k[0] == "param" and k[1] == "window" for k, _ in nfw[1]):
                     cd.append(e)
-                    window = [x for x in subterms(e.test) if x[0] == "param" and x[1] == "window"][0]
+                    window = [k for k, _ in nfw[1] if k[0] == "param" and k[1] == "window"][0]
             ok = False
             why = "no test on (counter, window)"
             for e in cd:
@@ -637,7 +688,7 @@ def rule_roll(ctx: Ctx):
     return [r1, r2, r3]
 
 
-def _flush_start_shape(idx):
+def _flush_start_shape(idx, s_n="state_n"):
     """For idx = key[0]*D + (first + t) % D with first depending on the counter n:
     ('ceil'|'floor'|'unknown', text).  None if idx has another form (handled by the dependence test)."""
     li = linear_index(idx)
@@ -655,7 +706,7 @@ def _flush_start_shape(idx):
             first = a
     if first is None:
         return None
-    reads = [x for x in subterms(first) if x[0] == "store" and x[1] == "get_state" and x[2][1] == "state_n"]
+    reads = [x for x in subterms(first) if x[0] == "store" and x[1] == "get_state" and x[2][1] == s_n]
     if not reads:
         return None
     n = reads[0]
